@@ -84,7 +84,7 @@ def wrap_block(rem_wanted, dist=9):
     ext2 = 16843008 + 1
     ext1 = 66311
     for _ in range(6):
-        in_size = (1 + dist + 2 + ext1) + (1 + 2 + ext2) + 6
+        in_size = (1 + (1 if dist >= 15 else 0) + dist + 2 + ext1) + (1 + 2 + ext2) + 6
         out_size = in_size + 64
         L = out_size - dist - rem_wanted
         nff, last = divmod(L - 19, 255)
@@ -102,7 +102,7 @@ def run_wrap(ctx, res):
     tmp = tempfile.mkdtemp(prefix="grverif-c14-", dir="/var/tmp")
     try:
         lines = []
-        for rem, dist in ((5, 9), (6, 9), (7, 12), (8, 9), (40, 9), (6, 8)) if ctx.quick() else ((5, 9), (6, 9), (7, 9), (5, 12), (6, 20), (7, 300), (8, 9), (9, 9), (40, 9), (6, 8), (6, 1)):
+        for rem, dist in ((5, 9), (6, 9), (7, 12), (8, 9), (40, 9), (6, 8)) if ctx.quick() else ((5, 9), (6, 9), (7, 9), (5, 12), (6, 20), (7, 200), (8, 9), (9, 9), (40, 9), (6, 8), (6, 1)):
             blk, osz = wrap_block(rem, dist)
             path = os.path.join(tmp, "wrap-%d-%d.bin" % (rem, dist))
             open(path, "wb").write(blk)
